@@ -5,7 +5,7 @@
 From Coq Require Import String List Bool Arith ZArith QArith Qcanon.
 From AL Require Import Base.CaseLib C20.Model C20.Spec C20.Check C20.Lib.
 From AL Require Import C20.ProofsMav C20.ProofsAmdf C20.ProofsEnv C20.ProofsClip C20.ProofsZc C20.ProofsUw.
-From AL Require Import C20.ProofsLin C20.ProofsCheck.
+From AL Require Import C20.ProofsLin C20.ProofsCheck C20.ProofsMulti.
 Import ListNotations.
 Open Scope Qc_scope.
 
@@ -281,3 +281,24 @@ Print Assumptions C20_accumulate_empty.
 Theorem C20_unwrap_empty : forall md step, unwrap md step [] = ([], false).
 Proof. exact unwrap_empty. Qed.
 Print Assumptions C20_unwrap_empty.
+
+(* ---------------------------------------------------------------- calls share no state *)
+(* any loop "for el in sig: <update own state>; yield" (a Mealy machine): when several
+   such streams are alive at once and pulled in ANY interleaved order, the values
+   delivered by stream i are the prefix (as long as its number of pulls) of what a
+   single uninterrupted run over its own input yields *)
+Theorem C20_calls_independent : forall (St B : Type) (step : St -> Qc -> St * B) ops sts i st,
+  nth_error sts i = Some st ->
+  outputs_of B i (sched St B step ops sts)
+  = firstn (count_occ Nat.eq_dec ops i) (mealy step (fst st) (snd st)).
+Proof. exact sched_independent. Qed.
+Print Assumptions C20_calls_independent.
+
+(* instance: the streams one maverage.deque(size) callable makes from inputs (zero_k, xs_k) *)
+Theorem C20_maverage_deque_calls_independent : forall c size ops (ins : list (Qc * list Qc)) i zero xs,
+  nth_error ins i = Some (zero, xs) ->
+  outputs_of _ i (sched _ _ (deque_step c) ops
+                    (map (fun p => ((repeat (fst p * c) size, fst p), snd p)) ins))
+  = firstn (count_occ Nat.eq_dec ops i) (mav_deque c size zero xs).
+Proof. exact mav_deque_calls_independent. Qed.
+Print Assumptions C20_maverage_deque_calls_independent.
